@@ -38,7 +38,7 @@ func npmResolveWithTree(u univ.Universe, root [2]string) (univ.Universe, [2]stri
 		npmHookMu.Lock()
 		defer npmHookMu.Unlock()
 		lc := u.Client(nil)
-		g, err := npmres.NewResolver(lc).Resolve(ctxBG, u.VK(root[0], root[1]))
+		g, err := bounded(npmres.NewResolver(lc)).Resolve(ctxBG, u.VK(root[0], root[1]))
 		var tree *npmres.VerifTreeNode
 		if t, ok := npmHookTrees.LoadAndDelete(root[1]); ok {
 			tree = t.(*npmres.VerifTreeNode)
@@ -53,7 +53,7 @@ func npmResolveWithTree(u univ.Universe, root [2]string) (univ.Universe, [2]stri
 		}
 	}
 	lc := u2.Client(nil)
-	g, err := npmres.NewResolver(lc).Resolve(ctxBG, u2.VK(root[0], tagged))
+	g, err := bounded(npmres.NewResolver(lc)).Resolve(ctxBG, u2.VK(root[0], tagged))
 	var tree *npmres.VerifTreeNode
 	if t, ok := npmHookTrees.LoadAndDelete(tagged); ok {
 		tree = t.(*npmres.VerifTreeNode)
@@ -394,6 +394,7 @@ func C06(tier string) {
 	run.Cov["evaluations"] = resolves
 	run.Cov["distinct_nontrivial"] = nontrivial
 	run.Cov["per_base"] = per
+	run.Cov["non_terminating_resolutions"] = resolveCutReport()
 	run.Cov["mechanisms_exercised"] = map[string]int64{"resolutions_with_nested_installs": st.nested, "nodes_with_errors": st.errorsSeen, "alias_edges": st.aliasEdges, "fresh_installs": st.freshInstalls, "reused_installs": st.reuses}
 	run.Sample(map[string]any{"universe": `{"sys":"NPM","vers":[{"p":"r","v":"1.0.0","reqs":[{"p":"a","v":"^1.0.0"},{"p":"b","v":"^1.0.0"}]}, ...]}`, "root": "r@1.0.0"})
 	run.Assumptions = []string{"universes beyond the deviation bound (3 packages x 2-4 versions) are not covered; derived (bundled) packages are exercised by C18, not here", "satisfaction and the expected pick come from hand tables in the harness, independent of util/semver"}
